@@ -67,6 +67,33 @@ def run(ctx):
                 tls_ops.append("tls %s %s %s" % (r["path"], kind, den))
                 tok = "none" if kind == "none" else "%s:2%s" % (kind, ":denied" if den == "1" else "")
                 tls_model_ops.append("rt %s U2F POST none 1 %s none none 1" % (r["path"], tok))
+    # round 5: histories. Pairs of overlapping calls (the first parked inside the password backend when the second
+    # arrives) and one session cookie presented while valid and again after its expiry; every call is judged alone.
+    basic = lambda b: "POST none 1 none none %s 1" % b
+    for mask in (65535, 2, 2 | 8 | 64):
+        for a, b in [("valid", "invalid"), ("invalid", "valid"), ("valid", "valid"), ("invalid", "invalid")]:
+            ops.append("caov %d %s %s" % (mask, basic(a), basic(b)))
+        ops.append("caov %d %s POST none 1 none none none 1" % (mask, basic("valid")))
+        ops.append("caov %d %s POST none 1 none auth:foreign:ok:ok:past:future:2:username none 1" % (mask, basic("valid")))
+        ops.append("caov %d %s POST none 1 none auth:ok:ok:ok:past:past:2:username none 1" % (mask, basic("valid")))
+        ops.append("caov %d POST none 1 none auth:ok:ok:ok:past:future:2:username none 1 %s" % (mask, basic("invalid")))
+
+    def pair_side():
+        r = rng.random()
+        if r < 0.6:
+            return basic(rng.choice(["valid", "invalid"]))
+        sh = g.shape(rng)
+        sh[3], sh[6] = sh[3].replace(":denied", ""), "1"
+        sh[5] = "valid" if sh[5] == "error" else sh[5]
+        return " ".join(sh)
+    for _ in range(40 if ctx.quick() else 500):
+        ops.append("caov %d %s %s" % (rng.choice(MASKS), pair_side(), pair_side()))
+    for mask in MASKS:
+        ops.append("caexp %d POST none 1 none auth:ok:ok:ok:past:soon:%d:alice none 1" % (mask, 2 | 8 | 64))
+    for _ in range(30 if ctx.quick() else 300):
+        kind, sig = ("auth", "ok") if rng.random() < 0.85 else rng.choice([("cli", "ok"), ("auth", "foreign"), ("storage", "ok")])
+        ops.append("caexp %d %s none 1 none %s:%s:ok:ok:past:soon:%d:%s none 1" % (
+            rng.choice(MASKS), rng.choice(["POST", "POST", "GET"]), kind, sig, g.level(rng, 0.35), rng.choice(["alice", "bob"])))
     # the deny list as an operator writes it: through a config file and the real loader
     ops += ["cfgdeny 16"] if ctx.quick() else ["cfgdeny 16", "cfgdeny 64", "cfgdeny 200"]
     n_plain = len(ops)
@@ -118,6 +145,25 @@ def run(ctx):
             elif a != b:
                 ctx.broken.append("config-file deny-list probe %r: impl=%r model=%r" % (o, a, b))
             continue
+        if o.startswith("caov ") or o.startswith("caexp "):
+            pa, pb = a.split(" | "), b.split(" | ")
+            if len(pa) != 2 or len(pb) != 2:
+                dis_ca.append((o, a, b))
+                continue
+            hist[o.split()[0] + ":" + " | ".join(x.split()[0] for x in pa)] += 1
+            names = (["first (parked inside the password backend)", "second (checked meanwhile)"] if o.startswith("caov ")
+                     else ["while the cookie is valid", "the same cookie after its expiry"])
+            for i in range(2):
+                if pa[i].startswith("ok"):
+                    nontrivial.add(o + "#%d" % i)
+                if pa[i] != pb[i]:
+                    dis_ca.append((o, a, b))
+                    # admitted although the proved checkAuth refuses this request (or admitted as someone/something else)
+                    if pa[i].startswith("ok"):
+                        c.add_violation(ctx, "checkAuth-admits:" + o,
+                                        "real checkAuth admitted %r where the proved model says %s [call %d of the history: %s]" % (
+                                            pa[i], pb[i], i + 1, names[i]), {"op": o, "impl": a, "model": b})
+            continue
         if o.startswith("ca "):
             hist["checkAuth:" + " ".join(a.split()[:2] if a.startswith("fail") else a.split()[:1])] += 1
             if a.startswith("ok"):
@@ -150,10 +196,10 @@ def run(ctx):
                 ctx.broken.append("route probe %r: impl=%r model=%r" % (o, a, b))
     if dis_ca:
         ctx.broken.append("correspondence checkAuth vs KM.Auth.checkAuth: %d/%d ops disagree, first: op=%r impl=%r model=%r" % (
-            len(dis_ca), sum(1 for o in ops if o.startswith("ca ")), dis_ca[0][0], dis_ca[0][1], dis_ca[0][2]))
+            len(dis_ca), sum(1 for o in ops if o.startswith("ca")), dis_ca[0][0], dis_ca[0][1], dis_ca[0][2]))
     ctx.coverage.update({
         "evaluations": len(ops), "distinct_nontrivial": len(nontrivial),
-        "rule": "request shapes (method x origin x host x TLS chain kind/shape/deny x cookie claims x basic-auth x limiter) from a mostly-valid generator, against the real checkAuth for 9 masks and against every handler of the regenerated route table; non-trivial = distinct ops that were admitted (checkAuth ok) or produced a protected effect",
+        "rule": "request shapes (method x origin x host x TLS chain kind/shape/deny x cookie claims x basic-auth x limiter) from a mostly-valid generator, against the real checkAuth for 9 masks (also as histories: pairs of overlapping calls with the first parked inside the password backend, one cookie before and after its expiry) and against every handler of the regenerated route table; non-trivial = distinct ops that were admitted (checkAuth ok) or produced a protected effect",
         "routes_probed": len(routes), "routes_with_recovered_panics": sorted(panics), "real_tls_handshakes": len(tls_ops), "outcome_histogram": dict(hist),
         "samples": [{"op": o, "impl": a, "model": b} for o, a, b in list(zip(ops, impl, model))[:4] + list(zip(ops, impl, model))[-3:]],
     })
